@@ -97,16 +97,18 @@ def _work(job):
     kept = []
     for kind, shape, types, colours in job:
         for repname in P.REPS:
-            if len(kept) < 6 and not (kind == 'state' and 'Box' in types):
+            if len(kept) < 8 and not (kind == 'state' and 'Box' in types) and (len(kept) < 3 or {'Key', 'Door'} & set(types)):
                 # keep a representation, the spaces it advertised when created, and two members: re-checked at the end,
                 # after representations of OTHER spaces have been created and used in this process
                 objs = P.objects_of(types, colours)
                 if kind == 'state':
                     rep0 = P.make_state_representation(repname, P.state_space(shape, types, colours))
-                    mem = [mkstate(m) for m in list(P.state_members(shape, objs))[-3:]]
+                    allm = list(P.state_members(shape, objs))
+                    mem = [mkstate(m) for m in allm[:: max(1, len(allm) // 12)]]
                 else:
                     rep0 = P.make_observation_representation(repname, P.obs_space(shape, types, colours))
-                    mem = [mkobs(m) for m in list(P.obs_members(shape, objs))[:3]]
+                    allm = list(P.obs_members(shape, objs))
+                    mem = [mkobs(m) for m in allm[:: max(1, len(allm) // 12)]]
                 kept.append((kind, shape, types, colours, repname, rep0, dict(rep0.space), outer_space_to_gym_space(rep0.space), mem))
             k, msg, m = judge_space(kind, shape, types, colours, repname)
             n += k
@@ -141,8 +143,11 @@ def _work(job):
     for kind, shape, types, colours, repname, rep0, space0, gym0, mem in kept:
         for mo in mem:
             n += 1
-            arrays = rep0.convert(mo)
-            bad = [k for k in arrays if not space0[k].contains(arrays[k])] or ([] if gym0.contains(arrays) else ['<gym space>'])
+            try:
+                arrays = rep0.convert(mo)
+                bad = [k for k in arrays if not space0[k].contains(arrays[k])] or ([] if gym0.contains(arrays) else ['<gym space>'])
+            except Exception as e:  # noqa: BLE001
+                bad = [f'<convert raised {type(e).__name__}: {e}>']
             if bad and len(fails) < 3:
                 fails.append({'kind': 'space_order', 'job': [list(map(list, (j[1], j[2], j[3]))) + [j[0]] for j in job][:0],
                               'message': f'{kind} space {shape} types {list(types)} colours {list(colours)} [{repname}]: after representations '
